@@ -18,7 +18,7 @@ claim('C10',
       'Decides the reproducibility clause for every seed-accepting API of the whole package (53 functions): on every '
       'resolved path the result is a function of arguments and seed only - no ambient draw (S3), every nested seeded '
       'callee receives a seed-derived value in its seed slot (S2), every generator draw has a seed-derived receiver on '
-      'every path (S4, flow-sensitive must-taint). Of the validity clause one structural part is decided: a complex-capable array composed '
+      'every path (S4, flow-sensitive must-taint); the generator is built once per call, never inside a loop or comprehension (S7). Of the validity clause one structural part is decided: a complex-capable array composed '
       'with its own transpose in the random generators is conjugated (HM1: Hermitian outputs); rand_pauli never writes into the F2 of an '
       'operator it has already built (O4: its lazily computed sign would go stale). The other validity clauses are value-level '
       'and NOT decided.',
@@ -45,7 +45,8 @@ claim('C18',
       'option returns the outer product of the very ket returned without it (RD1); the UPB complement projector conjugates the bra factor '
       '(PJ1); result buffers typed after an unconverted parameter never receive a true-division value (DT1: integer coefficients); arrays '
       'derived from a list are built after its last append (ST1: basis list and projector array agree); no public constructor is memoised '
-      'unfrozen (O3). Normalisation/PSD/PPT of each constructor '
+      'unfrozen (O3); the multi-qubit tetrahedron POVM tensors rows and columns in the same factor order (KR1). Normalisation/PSD/PPT of '
+      'each constructor '
       'is value-level and NOT decided.',
       'Trusted: Python operator precedence; the enumerated guard idioms of F1.',
       'ast pattern + guard reaching-definitions with interval analysis',
@@ -57,7 +58,8 @@ claim('C20',
       'consistently: fields kept after analysis == data fields at synthesis, zeros re-inserted in the dropped block, projections '
       'keep every data field (G2, G3); basis and complement receive identical post-processing in every arm (G5); size names bound from '
       'shape[k] keep their axis identity and merged axes are split in merge order (SH3: the bipartite projector of the rank-one detector is '
-      'reshaped for the right factorisation). Exactness of the span/complement and soundness of the hierarchy are value-level and NOT decided.',
+      'reshaped for the right factorisation); a slice x[-(a-b):] has a guard for a == b (NZ1: the complement of a full-span input is empty, '
+      'not everything); every eigsh call of the numerical-range routines names the algebraic end (K5). Exactness of the span/complement and soundness of the hierarchy are value-level and NOT decided.',
       'Trusted: the decision-function table; provenance of the compared value through resolved callees.',
       'ast provenance lattice on comparisons in decision functions',
       'DESIGN.md 4 (T, G, SH3), 5 C20')
@@ -127,7 +129,8 @@ claim('C13',
       'the ensemble index and trace exactly one subsystem (V1); set_density_matrix re-computes every state-derived attribute on every path '
       '(V2: no early return, no one-armed conditional store - a re-used model never evaluates the previous state); the polar Stiefel map '
       'factorises exactly M^dagger M (W5: no regularisation term, so the mixing matrix is an isometry at every parameter scale); clamps sit '
-      'inside square roots and the pure-state concurrence clamps its radicand (F5, F2). Ranges, LU invariance, monotone relations and loss >= closed form are '
+      'inside square roots and the pure-state concurrence clamps its radicand (F5, F2); a purity is contracted with the conjugate / with '
+      'transposed legs, never as a plain sum of squares (HM3). Ranges, LU invariance, monotone relations and loss >= closed form are '
       'value-level and NOT decided; for the GME model only (a),(b) of V1 are decided (computed index lists).',
       'Trusted: Stiefel point is an isometry (C01 territory).',
       'ast typing of literal contraction index lists + guard reaching-definitions with interval analysis',
@@ -137,7 +140,8 @@ claim('C15',
       'degenerate rotations it contains - abstract interpretation over the index-space lattice {Full, Masked(m), Scalar, Unknown} '
       '(MS1); a full-circle angle (alpha, gamma, alpha+-gamma) is never recovered from arccos of one entry alone - it needs arctan2 of '
       'two independent entries or a sign test on a second entry in the same branch (AG1, dataflow closure per branch); every '
-      'arccos argument is clipped, so exactly degenerate and axis-aligned rotations do not produce NaN (F3); mask-guarded update blocks '
+      'arccos argument is clipped, so exactly degenerate and axis-aligned rotations do not produce NaN (F3); every public default of the '
+      'gimbal threshold is above the resolution of arccos (AG5); mask-guarded update blocks '
       'are independent statements (MS2). Decided exactly, by polynomial arithmetic over Q(i) on the literal formulas (52 obligations): '
       'su2_to_so3 is the adjoint representation 1/2 Tr(s_i U s_j U^dag) - hence a homomorphism - and su2_to_angle hands the extractor the '
       'entries its parameters name (AG2); angle_to_so3 = Rz Ry Rz and every extractor branch reads (sin, cos) of exactly the angle '
@@ -154,7 +158,8 @@ claim('C16',
       'basis array handed out by all_gellmann_matrix is never mutated (O1); analysis and synthesis are C-linear (no conj/real/imag/abs on '
       'the data) and with_I only drops the last element after the tensor product (G4); every arm of gellmann_matrix is Hermitian with '
       'Tr(G^2) = 2 and the diagonal arms are traceless, for every d and index, symbolically (G6: conjugate pairs at mirrored positions, '
-      'd*(2/d) = 2, s^2 (l + l^2) = 2). Orthogonality between different off-diagonal elements (disjoint supports), exact round trip and float32 behaviour '
+      'd*(2/d) = 2, s^2 (l + l^2) = 2); the tensor-product basis merges rows and columns in the factor order of the element index (KR1); '
+      'the Gell-Mann norm is not computed as the root of a cancelling difference (F2); the analysis does not enumerate pairs in tril order (G1). Orthogonality between different off-diagonal elements (disjoint supports), exact round trip and float32 behaviour '
       'are value-level and NOT decided.',
       'Trusted: projection semantics (.imag keeps the antisymmetric field only, .real keeps S, D, I) which follow from G1.',
       'ast table/slice extraction + symbolic (polynomial) column-range typing',
@@ -242,7 +247,8 @@ claim('C09',
       'the same order (SP2); the (a_i, b_i) codec has inverse offsets, matching bit widths, identical h0 slices and the same polarity for the '
       'extra transvection (SP3); one bit/byte order in the bit-array helpers (SP4); the symplectic form crosses the halves, a transvection is '
       'x + <x,h>h, the closed-form inverse is roll(S^T, n) on both axes (SP5); the two symmetric blocks of find_transvection are twins up to '
-      'v0 <-> v1 (SP6); radix draws of rand_SpF2 stay inside the radix (S5). The bijection itself (distinctness, image = whole group, the '
+      'v0 <-> v1 (SP6); radix draws of rand_SpF2 stay inside the radix (S5) and come from ONE generator per call (S7); the bit-array codec '
+      'uses exact Python integers, never fixed-width NumPy place values (SP4); no memoised function hands out an unfrozen array (O5). The bijection itself (distinctness, image = whole group, the '
       'Lemma-2 case analysis mapping v0 to v1) is a property of run-time bit vectors and is NOT decided.',
       'Trusted: the idiom tables of SP2/SP3 (slice texts); a restructured encoder/decoder is reported as analysis error, never as a violation.',
       'ast sibling (encoder/decoder) agreement: slice-map extraction, alpha-renamed twin comparison, literal table checks',
@@ -267,7 +273,8 @@ claim('C17',
       'the same order (PT1, symbolic typing of the run-time leg lists - the einsum then IS the explicit contraction); the Dicke '
       'reduction table pairs k with k - e_r + e_s and reads the decremented slot on the source and the incremented slot on the target '
       'tuple (PT2); partial_trace_ABk_to_AB conjugates the bra factor only, uses (I,J,value) in table order and reorders (A,A\',r,s) to '
-      '(A,r,A\',s) in both backends, whose arms are the same computation (PT3, B1). Orthonormality and permutation invariance of the Dicke '
+      '(A,r,A\',s) in both backends, whose arms are the same computation (PT3, B1); the unfolding never depends on the memory layout (RO1); the Dicke index arithmetic uses no '
+      'narrow integer dtype (DT2); no constructor of numqi.dicke is memoised unfrozen (O3). Orthonormality and permutation invariance of the Dicke '
       'vectors and the occupation-number identity itself are value-level and NOT decided.',
       'Trusted: NumPy einsum semantics for integer leg lists; the idiom table of PT1 (a different way of building the legs is reported as '
       'analysis error, never as a violation).',
